@@ -108,6 +108,11 @@ static struct reb_treecell *reb_tree_add_particle_to_cell(struct reb_simulation*
 	if (node->pt >= 0) { // It's a leaf node
 		int o1 = reb_reb_tree_get_octant_for_particle_in_cell(particles[node->pt], node);
 		int o2 = reb_reb_tree_get_octant_for_particle_in_cell(particles[pt], node);
+        if (o1==o2 && isnan(particles[node->pt].y)){
+            // The resident is flagged for removal (y is NaN, all comparisons are false): it cannot be separated from the
+            // new particle by position. It only needs to stay in some leaf until the next tree update removes it.
+            o1 ^= 2;
+        }
         if (o1==o2){ // If they fall in the same octant, check if they have same coordinates to avoid infinite recursion
             if (particles[pt].x == particles[node->pt].x && particles[pt].y == particles[node->pt].y && particles[pt].z == particles[node->pt].z){
                 reb_simulation_error(r, "Cannot add two particles with the same coordinates to the tree.");
